@@ -40,8 +40,11 @@ Fixpoint tab_find (pre : list N) (t : etab) : option (list N) :=
 (** an absent preimage hashes to something that is no byte string *)
 Definition H_tab (t : etab) (span data : list N) : list N :=
   match tab_find (span ++ data) t with Some h => h | None => [256] end.
+(** the repaired code (and cac.Valid) hashes a payload only when its length is
+    within [SpanSize, ChunkSize+SpanSize]; those must be in the table *)
 Definition covered (t : etab) (p : list N) : bool :=
-  if lenN p <? SpanSize then true
+  let n := lenN p in
+  if (n <? SpanSize) || (ChunkSize + SpanSize <? n) then true
   else match tab_find (span_of SpanSize p ++ hasher_write HCap [] (data_of SpanSize p)) t with Some _ => true | None => false end.
 
 (** ---------------- retrieval ---------------- *)
@@ -60,7 +63,7 @@ Definition env_payload (e : cenv) : list (list N * bool) :=
   match e with CEnv _ _ _ (CFrame _ (Some d)) sv _ _ _ => [(expand d, sv)] | _ => [] end.
 (** soc.Valid as observed by the harness on (addr, the delivered data) *)
 Definition soc_tab (ps : list (list N * bool)) (a p : list N) : bool :=
-  existsb (fun e => snd e && beq (fst e) p) ps.
+  existsb (fun e : list N * bool => if snd e then beq (fst e) p else false) ps.
 
 Inductive cev := OConnect | OReserve | OStream | OCredit | OReport | OPut (a : list N) (p : blob).
 Inductive cres := OOk (a : list N) (p : blob) | ONoRoute | ONotFound | OOther.  (* OOther: hang / unexpected error *)
@@ -68,18 +71,18 @@ Inductive cres := OOk (a : list N) (p : blob) | ONoRoute | ONotFound | OOther.  
 Definition ev_eqb (m : event) (o : cev) : bool :=
   match m, o with
   | EvConnect, OConnect | EvReserve, OReserve | EvStream, OStream | EvCredit, OCredit | EvReport, OReport => true
-  | EvPut a p, OPut a' p' => beq a a' && beq p (expand p')
+  | EvPut a p, OPut a' p' => if beq a a' then beq p (expand p') else false
   | _, _ => false
   end.
 Fixpoint trace_eqb (m : list event) (o : list cev) : bool :=
   match m, o with
   | [], [] => true
-  | x :: m', y :: o' => ev_eqb x y && trace_eqb m' o'
+  | x :: m', y :: o' => if ev_eqb x y then trace_eqb m' o' else false
   | _, _ => false
   end.
 Definition lres_eqb (m : lres) (o : cres) : bool :=
   match m, o with
-  | LOk a p, OOk a' p' => beq a a' && beq p (expand p')
+  | LOk a p, OOk a' p' => if beq a a' then beq p (expand p') else false
   | LNoRoute, ONoRoute | LNotFound, ONotFound => true
   | _, _ => false
   end.
@@ -98,7 +101,7 @@ Definition pclass_code (c : pclass) : N :=
   match c with PSkip => 0 | PRead => 4 | PSource => 4 | PGet g => gclass_code g end.
 
 Definition put_eqb (m : list N * list N) (o : list N * blob) : bool :=
-  beq (fst m) (fst o) && beq (snd m) (expand (snd o)).
+  if beq (fst m) (fst o) then beq (snd m) (expand (snd o)) else false.
 Definition subset_mo (m : list (list N * list N)) (o : list (list N * blob)) : bool :=
   forallb (fun x => existsb (fun y => put_eqb x y) o) m.
 Definition subset_om (o : list (list N * blob)) (m : list (list N * list N)) : bool :=
@@ -164,8 +167,10 @@ Fixpoint hist_run (H : list N -> list N -> list N) (bounded : bool) (st : pstate
   | COp root fr qs we fa so :: t =>
       let w := {| queries := qs; wend := we |} in
       let frames := map frame_of fr in
-      let '(st', ps, c) := send_pyramid H ChunkSize SpanSize HCap bounded st root frames [] w fa so in
-      let '(_, psfree, _) := send_pyramid H ChunkSize SpanSize HCap bounded st root frames [] w None so in
+      let '(st', ps, c) := find_pyramid H ChunkSize SpanSize HCap bounded st root frames w fa so in
+      let psfree := match fa with
+                    | Some _ => snd (fst (find_pyramid H ChunkSize SpanSize HCap bounded st root frames w None so))
+                    | None => ps end in
       (ps, psfree, match fa with Some _ => true | None => false end, pclass_code c) :: hist_run H bounded st' t
   end.
 Fixpoint hist_match (m : list (list (list N * list N) * list (list N * list N) * bool * N))
@@ -198,7 +203,9 @@ Definition check_case (c : case) : bool :=
       let w := {| queries := qs; wend := we |} in
       let pm := map_of m in
       let '(ps, c) := get_chunk_hashes H ChunkSize SpanSize HCap bounded root pm w fa in
-      let '(psfree, _) := get_chunk_hashes H ChunkSize SpanSize HCap bounded root pm w None in
+      let psfree := match fa with
+                    | Some _ => fst (get_chunk_hashes H ChunkSize SpanSize HCap bounded root pm w None)
+                    | None => ps end in
       (gclass_code c =? oclass) && puts_match ps psfree (match fa with Some _ => true | None => false end) oputs
   | CHist ops tab obs =>
       let H := H_tab (expand_tab tab) in
